@@ -118,6 +118,15 @@ impl Report {
                                     None => crate::wire::l1(x),
                                 }
                             }
+                            7 => {
+                                // L1 on the result token; failures stored inside a list / map value: any kind;
+                                // call log verbatim
+                                x.split(' ')
+                                    .enumerate()
+                                    .map(|(i, t)| if i == 0 { crate::wire::l1(t) } else if t.starts_with("e:") { "e:*".to_string() } else { t.to_string() })
+                                    .collect::<Vec<_>>()
+                                    .join(" ")
+                            }
                             5 => {
                                 // AST: syntax errors compare by class, trees as JSON values
                                 if x.starts_with('E') {
